@@ -331,6 +331,31 @@ def ep_shape_name_then_group(env, s):
     return g.shapes[0].name
 
 
+def ep_hyperlink_repointed(env, s):
+    """two links on one slide: link 1 gets `s`, is re-pointed elsewhere (its relationship id is freed and re-used), then
+    link 2 gets `s`; both read after a save and re-open"""
+    import io as _io
+
+    from pptx import Presentation
+
+    tf = env.slide.shapes.add_textbox(0, 0, 9, 9).text_frame
+    r1 = tf.paragraphs[0].add_run(); r1.text = "1"
+    r2 = tf.paragraphs[0].add_run(); r2.text = "2"
+    other = "http://other.example/?" + str(len(s))
+    r1.hyperlink.address = s
+    r1.hyperlink.address = other
+    r2.hyperlink.address = s
+    if (r1.hyperlink.address, r2.hyperlink.address) != (other, s):
+        return repr((r1.hyperlink.address, r2.hyperlink.address))
+    b = _io.BytesIO(); env.prs.save(b)
+    prs2 = Presentation(_io.BytesIO(b.getvalue()))
+    idx = list(env.prs.slides).index(env.slide) if hasattr(env.prs.slides, "index") else [x.slide_id for x in env.prs.slides].index(env.slide.slide_id)
+    runs = [r for sh in prs2.slides[idx].shapes if sh.has_text_frame for r in sh.text_frame.paragraphs[0].runs if r.text in ("1", "2")][-2:]
+    got = (runs[0].hyperlink.address, runs[1].hyperlink.address)
+    return s if got == (other, s) else repr(got)
+
+
+ENTRY_POINTS.append(("run hyperlink address, after another link was re-pointed", lambda s: s != "", ep_hyperlink_repointed))
 ENTRY_POINTS.append(("placeholder name, then insert_picture", lambda s: True, ep_ph_name_then_insert))
 ENTRY_POINTS.append(("shape name, then grouped", lambda s: True, ep_shape_name_then_group))
 ENTRY_POINTS.append(("date categories number_format", lambda s: s != "", ep_date_cat_number_format))
